@@ -891,6 +891,13 @@ fn run_op(w: &mut World, op: &Val) -> Val {
 }
 
 fn main() {
+    // the operations run on a spawned thread with Rust's default stack size (2 MiB, unless RUST_MIN_STACK says otherwise):
+    // that is where an application's consumer / producer loop normally lives, and what "overflows the stack" is measured against
+    let h = std::thread::Builder::new().name("ops".into()).spawn(real_main).expect("spawn");
+    let _ = h.join();
+}
+
+fn real_main() {
     install_connector();
     // silence the default panic message; the payload is reported in the result
     std::panic::set_hook(Box::new(|_| {}));
